@@ -357,6 +357,16 @@ var c03Pinned = []string{
 	"150 { 0 1 3 { dup 1 eq { exit } if pop } for pop } repeat 7",
 	"0 1 150 { pop [ 1 2 ] { exit 3 } forall pop } for { { { { 9 } exec } exec } exec } exec",
 	"/p { 1 exit 2 } def 150 { { p } loop pop } repeat 8",
+	// for whose control value would pass the largest or smallest integer after the last round
+	"9223372036854775806 1 9223372036854775807 { } for 7",
+	"9223372036854775807 1 9223372036854775807 { } for 7",
+	"9223372036854775800 5 9223372036854775807 { } for 7",
+	"0 9223372036854775807 9223372036854775807 { } for 7",
+	"-9223372036854775807 -1 -9223372036854775808 { } for 7",
+	"-9223372036854775808 -1 -9223372036854775808 { } for 7",
+	"0 -9223372036854775808 -9223372036854775808 { } for 7",
+	"9223372036854775805 1 9223372036854775807 { dup 9223372036854775806 eq { exit } if } for 7",
+	"-5 4611686018427387904 9223372036854775807 { } for",
 }
 
 func runC03(r *rt.Runner) {
